@@ -38,6 +38,9 @@ MAP = [
     ("check_pow accepts hash == target", "C17", "check_pow rejected hash == target and accepted sign-bit / zero targets"),
     ("bits_to_target uses integer arithmetic", "C17", "bits_to_target returned floats for exponent < 3 and read the sign bit as magnitude"),
     ("target_to_bits always emits four bytes", "C17", "target_to_bits gave 2-3 bytes for targets below 2**16; IndexError for 0"),
+    ("HDPublicKey.traverse accepts the upper-case M prefix", "C08", "public traverse / blind_xpub refused paths with the upper-case M prefix"),
+    ("the tapleaf hash commits to the witness script bytes", "C12", "witness script with a re-encoded push still matched the leaf commitment"),
+    ("MuSig nonce coefficient handles a nonce sum at infinity", "C13", "honest MuSig session whose nonce components cancel raised AttributeError"),
     ("PSBTIn.validate compares a p2sh-p2wpkh key", "C10", "p2sh-p2wpkh input with derivation could not be validated / re-parsed"),
     ("PSBTOut.validate accepts the key derivation of a p2sh-p2wpkh output", "C10", "p2sh-p2wpkh output with derivation could not be validated / re-parsed"),
     ("PSBT.serialize embeds the unsigned transaction in non-witness format", "C10", "Tx(segwit=True) was embedded in witness format; re-parse failed"),
